@@ -44,10 +44,21 @@ def main():
         print(sid, res, flush=True)
     # the checks regenerate lean/VpnCloud/Generated from whatever /repo contained: bring it back to the unchanged tree
     sh("%s %s/translate/translate.py /repo %s/lean/VpnCloud/Generated" % (sys.executable, ROOT, ROOT))
+    write_results()
+
+
+def write_results():
+    """RESULTS.md lists every seeded change with the outcome recorded in its meta.json (the last run of this tool for that change)"""
     with open(os.path.join(ROOT, "seeded", "RESULTS.md"), "w") as f:
         f.write("# Seeded changes and the checks that catch them (written by tools/run_seeded.py)\n\n| change | property | outcome of the quick checks |\n|---|---|---|\n")
-        for sid, prop, r, _ in rows:
-            f.write("| %s | %s | %s |\n" % (sid, prop, r))
+        for sid in sorted(os.listdir(os.path.join(ROOT, "seeded"))):
+            mp = os.path.join(ROOT, "seeded", sid, "meta.json")
+            if not os.path.exists(mp):
+                continue
+            meta = json.load(open(mp))
+            det = meta.get("detected_by")
+            r = "; ".join("%s: %s" % (k, v["result"]) for k, v in det.items()) if det else "not run yet"
+            f.write("| %s | %s | %s |\n" % (sid, meta["property"], r))
 
 if __name__ == "__main__":
     main()
